@@ -6,6 +6,8 @@ from ..ref import adsb as radsb
 from ..ref import bits
 
 LEVEL = "exploration"
+TECHNIQUE = 'runtime monitoring: DO-260B ME builders (TC19/28/29 subtype 0+1/31) as oracle, exhaustive per-field sweeps, totality/monotonicity/domain monitors on look-ups'
+LEVEL_TEXT = 'Every field value executed; look-up *values* are not compared with the standard (no trusted transcription offline) - structure only.'
 EXHAUSTIVE = True
 LEVEL_RULE = (
     "Every TC28/TC29(subtype 0 and 1)/TC31/TC19 accessor of pyModeS.adsb called on messages built forward by DO-260B field "
